@@ -248,6 +248,7 @@ func (r *Run) ingestRaceLog() {
 	}
 	blocks := strings.Split(txt, "WARNING: DATA RACE")
 	keys := map[string]bool{}
+	ignored := 0
 	for _, blk := range blocks[1:] {
 		// the first function of each of the two access stacks
 		var fns []string
@@ -266,6 +267,24 @@ func (r *Run) ingestRaceLog() {
 			}
 		}
 		sort.Strings(fns)
+		// a race whose two accesses are both in test-side code (the repository's TestServer, the pass's own in-process
+		// node and test functions, package testing) says nothing about the driver
+		testSide := len(fns) > 0
+		for _, fn := range fns {
+			isTest := false
+			for _, pat := range []string{"TestServer", "vrServer", "vrConn", "vrLogger", "testLogger", "TestVerif", "testing."} {
+				if strings.Contains(fn, pat) {
+					isTest = true
+				}
+			}
+			if !isTest {
+				testSide = false
+			}
+		}
+		if testSide {
+			ignored++
+			continue
+		}
 		key := "race:" + strings.Join(fns, "|")
 		if !keys[key] {
 			keys[key] = true
@@ -276,7 +295,7 @@ func (r *Run) ingestRaceLog() {
 			r.Violation(key, "data race reported by the free-running -race pass:"+blk[:end], map[string]string{"log": "race detector output", "report": blk[:end]})
 		}
 	}
-	r.Extra("race_pass", map[string]interface{}{"runs": os.Getenv("VERIF_RACE_RUNS"), "race_reports": len(blocks) - 1, "distinct": len(keys),
+	r.Extra("race_pass", map[string]interface{}{"runs": os.Getenv("VERIF_RACE_RUNS"), "race_reports": len(blocks) - 1, "distinct": len(keys), "ignored_test_side_only": ignored,
 		"note": "free-running go test -race of harness/<id>/race/*_test.go against the repository's in-process test server; sampled, not exhaustive, never decides the property on its own except by reporting a race"})
 }
 
